@@ -22,7 +22,7 @@ enum Kind : int {
   K_THREAD_START = 26, K_THREAD_END = 27, K_BLOCKED = 28, K_KIND_MAX = 32
 };
 
-enum Strategy : int { ST_SEQUENTIAL = 0, ST_PB = 1, ST_PCT = 2, ST_RW = 3, ST_RR = 4, ST_CONFLICT = 5 };
+enum Strategy : int { ST_SEQUENTIAL = 0, ST_PB = 1, ST_PCT = 2, ST_RW = 3, ST_RR = 4, ST_CONFLICT = 5, ST_SWEEP2 = 6 };
 
 struct Block {
   uintptr_t addr = 0;
@@ -45,6 +45,7 @@ void concurrent_end();
 void run_end(Result& r);                   // fills hash/steps/switches/realised/fired, frees logically freed blocks
 std::vector<uint32_t> thread_lengths();    // weighted hook counts per thread of the last run
 std::vector<uint32_t> thread_hook_counts(); // plain hook counts per thread of the last run
+std::vector<uint32_t> thread_op0_hooks();   // hooks each thread executed inside its operation 0 in the last run
 size_t conflict_point_count(int order_desc);  // conflict points recorded on the ascending (0) / descending (1) sequential schedule
 
 // ----- from any sim thread -----
